@@ -125,10 +125,17 @@ class BucketWorld(object):
     self.ctx.probe('limit_change')
     # recorded before the call: a grant made by the other thread while this one is
     # pre-empted inside setCapacityAndFillRate already falls under the new limits
+    # while the call is in progress (the changing thread can be pre-empted inside it) the
+    # other thread may legitimately see either the old or the new limits: the larger of
+    # the two is in force until the call has returned
+    old_cap = self.caps[-1][1]
+    old_rate = self.rate_segments[-1][1]
     self.changes.append((self.s.now, float(cap), float(rate)))
+    self.rate_segments.append((self.s.now, max(old_rate, float(rate))))
+    self.caps.append((len(self.grants), max(old_cap, float(cap))))
+    self.b.setCapacityAndFillRate(cap, rate)
     self.rate_segments.append((self.s.now, float(rate)))
     self.caps.append((len(self.grants), float(cap)))
-    self.b.setCapacityAndFillRate(cap, rate)
 
   def do_t2(self, op):
     if op[0] == 'advance':
